@@ -117,7 +117,7 @@ def rand_cfg(rng: random.Random, gen: ModelGen, ent, multiclient: Optional[bool]
         'origin': rng.choice(['create', 'import']),
         'copyright': rng.choice(COPYRIGHTS) if hostile_text else 'Copyright (c) test',
         'creator': rng.choice([None, 'me', 'tool v1\nline 2'] + (COPYRIGHTS if hostile_text else [])),
-        'prefix': rng.choice([None, None, ['Other'], ['My', 'Own', 'Prefix'], ['a_1']]),
+        'prefix': rng.choice([None, None, ['QZOther'], ['QZMy', 'QZOwn', 'QZPrefix'], ['qz_1x']]),  # never generated as model names
     }
     if mc is not None:
         enc['multiclient'] = {k: mc[k] for k in ('port', 'claim', 'reply', 'release')}
